@@ -2,6 +2,7 @@ package detsim
 
 import (
 	"hash/fnv"
+	"os"
 	"runtime"
 	"sort"
 	"strings"
@@ -63,6 +64,10 @@ type Sched struct {
 func NewSched(cfg SchedConfig, record bool, states map[uint64]struct{}) *Sched {
 	if states == nil {
 		states = map[uint64]struct{}{}
+	}
+	if os.Getenv("VERIF_FREE") != "" {
+		// auxiliary race-detector executions: same scenarios, scheduler switched off
+		cfg.Free = true
 	}
 	return &Sched{
 		cfg:      cfg,
